@@ -43,6 +43,7 @@ type Op struct {
 	N     int      `json:"n,omitempty"`
 	Nfrac int      `json:"nfrac,omitempty"`
 	Io    bool     `json:"io,omitempty"`
+	Slow  bool     `json:"slow,omitempty"` // the consumer of the server's client updates stalls for 1.3 s: the handler's report to clients blocks that long
 }
 
 type Case struct {
@@ -69,6 +70,7 @@ type outcome struct {
 	Events   []sched.Event `json:"events"`
 	Returned int           `json:"returned"`
 	Hung     bool          `json:"hung"`
+	Overlap  bool          `json:"overlap"` // the core loop left a handler that was still blocked
 	Running  bool          `json:"final_running"`
 	Progress bool          `json:"progress"`
 }
@@ -255,6 +257,18 @@ func (e *env) do(o Op) (call string, class string) {
 		return "req", okerr(sc.StopTriggerCoupling(&b, &okb))
 	case "storeraw":
 		var name string
+		if o.Io {
+			// the temporary file cannot be created: TMPDIR names a directory that does not exist
+			old, had := os.LookupEnv("TMPDIR")
+			os.Setenv("TMPDIR", filepath.Join(e.tmp, "no_such_directory"))
+			defer func() {
+				if had {
+					os.Setenv("TMPDIR", old)
+				} else {
+					os.Unsetenv("TMPDIR")
+				}
+			}()
+		}
 		err := sc.StoreRawDataBlock(o.N, &name)
 		if name != "" {
 			e.cleanup = append(e.cleanup, name, strings.Replace(name, ".npz", "_inprogress.npz", 1))
@@ -305,6 +319,8 @@ func runOnce(c Case, watchdog time.Duration) (outcome, error) {
 		return a != nil && a.GetState() == dastard.Active
 	}
 	next := 0
+	var slowUntil time.Time // a handler is being held open until (at least) then
+	slowBase := 0
 	hold := false // the core loop is parked after its loop ended: keep that window open while the next request waits
 	const maxSteps = 800
 	for !out.Hung {
@@ -339,6 +355,12 @@ func runOnce(c Case, watchdog time.Duration) (outcome, error) {
 			if o.Op == "start" || o.Op == "stop" {
 				call = o.Op
 			}
+			if o.Slow {
+				dastard.VerifC11HoldUpdates(1300 * time.Millisecond)
+				slowUntil = time.Now().Add(1200 * time.Millisecond)
+				slowBase = s.Count("core:after-request")
+				time.Sleep(10 * time.Millisecond) // the consumer notices within 2 ms
+			}
 			s.Go(call, func() string { _, cls := e.do(o); return cls })
 			for i := 0; i < 50 && s.InFlightFrom("call:"+call); i++ {
 				time.Sleep(100 * time.Microsecond)
@@ -348,6 +370,9 @@ func runOnce(c Case, watchdog time.Duration) (outcome, error) {
 		if s.Steps >= maxSteps {
 			out.Hung = true
 			break
+		}
+		if time.Now().Before(slowUntil) && s.Count("core:after-request") > slowBase {
+			out.Overlap = true // the core loop is past the handler although the handler cannot have finished
 		}
 		if hold {
 			if s.Step(func(n string) bool { return strings.HasPrefix(n, "rpc:") }) {
@@ -422,8 +447,8 @@ func render(c Case, out outcome, crashed bool) string {
 			es = append(es, "ret "+call+" "+cls)
 		}
 	}
-	return fmt.Sprintf("mk %s %d %d %d %s %s %d%%nat %s %s %s", coqKind[c.Source], nchanOf[c.Source], nsamp0, npre0,
-		lib.List(ops), lib.List(es), out.Returned, lib.B(crashed), lib.B(out.Running), lib.B(out.Progress))
+	return fmt.Sprintf("mk %s %d %d %d %s %s %d%%nat %s %s %s %s", coqKind[c.Source], nchanOf[c.Source], nsamp0, npre0,
+		lib.List(ops), lib.List(es), out.Returned, lib.B(crashed), lib.B(out.Overlap), lib.B(out.Running), lib.B(out.Progress))
 }
 
 // tagsOf: input features, also the stable keys of findings (request kind x argument class x state)
@@ -459,6 +484,9 @@ func tagsOf(c Case) []string {
 		}
 		if o.Io || (o.Op == "wc" && o.W == "start" && !o.PathO) {
 			t["io-failure"] = true
+		}
+		if o.Slow {
+			t["slow-handler"] = true
 		}
 		for _, i := range o.Idx {
 			if i < 0 {
